@@ -70,6 +70,7 @@ class Agent:
         self.only_threads = only_threads
         self.enabled = True
         self.in_hook = threading.local()
+        self.crash_after = False   # True: die right after the crash_at-th mutation returned, not before it
         self.mut_log = []  # (event, path) of mutating events under crash_under (recording pass)
         self.record_mut = False
         # delay injection at *reads* of mutable shared files (widens check-then-read windows)
@@ -110,7 +111,9 @@ class Agent:
                     if self.record_mut:
                         self.mut_log.append((event, p, _s(args[1]) if len(args) > 1 else None, args[2] if event == "open" and len(args) > 2 and isinstance(args[2], int) else None))
                     if self.crash_at is not None and self.mut_count == self.crash_at:
-                        os._exit(137)
+                        if not self.crash_after:
+                            os._exit(137)
+                        self._die_at_next_step()
             if (not mut) and event == "open" and self.delay_read_ms and self.delay_read_re is not None and isinstance(a0, str) and self.delay_read_re.search(a0):
                 with self.lock:
                     d = self.rng.random() * self.delay_read_ms / 1000.0
@@ -124,6 +127,29 @@ class Agent:
         finally:
             self.in_hook.v = False
 
+
+def _die(frame, event, arg):
+    if event in ("line", "return", "exception"):
+        os._exit(137)
+    return _die
+
+
+def _die_at_next_step(self):
+    """the mutating call is executing in C below the innermost Python frame that is not
+    ours: die at that frame's next line / return / exception event, i.e. after the call
+    returned and before the program does anything else (a close() or flush included)"""
+    f = sys._getframe(1)
+    here = os.path.dirname(os.path.abspath(__file__))
+    while f is not None and os.path.abspath(f.f_code.co_filename).startswith(here):
+        f = f.f_back
+    if f is None:
+        os._exit(137)
+    f.f_trace = _die
+    f.f_trace_lines = True
+    sys.settrace(lambda *a: None)
+
+
+Agent._die_at_next_step = _die_at_next_step
 
 _AGENT = None
 
